@@ -29,7 +29,7 @@ fn main() {
     for (k, (spec, bd)) in one.iter().enumerate() {
         let u = spec.universe();
         let cap = if quick { 60_000 } else { 2_000_000 };
-        ctx.run_slice(Slice::new(format!("one-step-from-arbitrary-states-{}[{} first {}]", k, spec.name(), cap.min(u.count())), u.count().min(cap), move |i, loc| check_one_step(bd, &u.get(i), loc)));
+        ctx.run_slice(Slice::new(format!("one-step-from-arbitrary-states-{}[{} first {} of {}]", k, spec.name(), cap.min(u.count()), u.count()), u.count().min(cap), move |i, loc| check_one_step(bd, &u.get(i), loc)));
     }
     // live object histories
     let bl = Bounds { nodes: 2, edges: 1, pairs: 1, iface: 1, arity_s: 1, arity_t: 1, labels: 2, del_ids: 1, hyper_only: false, alphabet: Alphabet::Full };
